@@ -22,6 +22,11 @@ CFG = {
             "Signature blobs made of SEVERAL packets around real signatures of the 5 test keys (junk / garbage in a signature frame / second signature / "
             "trailing packets or unframed bytes / every length format, ~240 blobs): the framing through the hook (pgpframes) and a package carrying the blob "
             "under RSA / DSA / PGP / OPENPGP through the whole allocation-counted read side. "
+            "Since AUDIT2 follow-up 1: stage sigreal = verify_signature with a REAL pgp::Verifier (the Ed25519 test key, loaded before the fork) on every case next to the rejecting one; "
+            "a third base package BUILT AND SIGNED by the library (build_and_sign, Ed25519; digests + OPENPGP + legacy tag in the signature header) for every truncation and the "
+            "single-byte mutations in quick; op hostsrc04: every truncation of the three base packages (and every 12th mutated signed package) once more in the child through the other source kinds / "
+            "entry points — Package::parse on an io::Cursor, Package::open(&Path) and (&str) on a file (default BufReader<File>), Package::parse over BufReader::with_capacity(16, File), "
+            "PackageMetadata::open — predicted by Io.parseChunked / Io.parseMetadataC under the corresponding chunk scripts; a source kind accepting what another rejects fails (source-kinds-differ). "
             "Non-trivial: all; distinct = distinct request lines.",
     "exhaustive": False,
     "shards": {"quick": 8, "thorough": 16},
